@@ -119,11 +119,26 @@ fn module_from(name: &str) -> AgentStatusModule {
 }
 
 /// production route: document -> set_imds_rules -> get_imds_rules -> is_allowed
+/// (route "keystatus": the document first travels inside a status document: KeyStatus deserialisation -> get_imds_rules())
 async fn rbac_state_one(case: &Value) -> Value {
-    let item = match item_from(&case["item"]) {
-        Ok(Some(i)) => i,
-        Ok(None) => return json!({"err": "null item"}),
-        Err(e) => return json!({"err": e}),
+    let item = if s(case, "route") == "keystatus" {
+        let doc = json!({"authorizationScheme": "Azure-HMAC-SHA256", "keyDeliveryMethod": "http", "keyGuid": Value::Null,
+            "requiredClaimsHeaderPairs": Value::Null, "secureChannelEnabled": true, "version": "2.0",
+            "authorizationRules": {"imds": case["item"].clone()}});
+        let text = serde_json::to_string(&doc).unwrap_or_default();
+        match serde_json::from_str::<agentlib::key_keeper::key::KeyStatus>(&text) {
+            Ok(st) => match st.get_imds_rules() {
+                Some(i) => i,
+                None => return json!({"err": "status document lost the rules"}),
+            },
+            Err(e) => return json!({"err": format!("deserialize KeyStatus: {e}")}),
+        }
+    } else {
+        match item_from(&case["item"]) {
+            Ok(Some(i)) => i,
+            Ok(None) => return json!({"err": "null item"}),
+            Err(e) => return json!({"err": e}),
+        }
     };
     let url = match hyper::Uri::from_str(&s(case, "url")) {
         Ok(u) => u,
@@ -544,7 +559,7 @@ async fn dispatch(op: String, a: Value) -> Value {
             let cases = a["cases"].as_array().cloned().unwrap_or_default();
             let mut out = Vec::with_capacity(cases.len());
             for c in cases {
-                if s(&c, "route") == "state" {
+                if s(&c, "route") == "state" || s(&c, "route") == "keystatus" {
                     out.push(rbac_state_one(&c).await);
                     continue;
                 }
@@ -587,6 +602,23 @@ async fn dispatch(op: String, a: Value) -> Value {
                 }
             }
             json!({ "results": out })
+        }
+        "rules_lookup_dead_state" => {
+            // a key-keeper state whose actor task is gone (its runtime was shut down): the policy lookup must fail, not report 'no rules'
+            let kk = std::thread::spawn(|| {
+                let rt = tokio::runtime::Builder::new_current_thread().enable_all().build().unwrap();
+                let kk = rt.block_on(async { agentlib::shared_state::key_keeper_wrapper::KeyKeeperSharedState::start_new() });
+                drop(rt);
+                kk
+            })
+            .join()
+            .unwrap();
+            let r = proxy_authorizer::get_access_control_rules(s(&a, "ip"), u(&a, "port", 80) as u16, kk).await;
+            match r {
+                Err(e) => json!({"outcome": "error", "text": e.to_string()}),
+                Ok(None) => json!({"outcome": "ok-no-rules"}),
+                Ok(Some(_)) => json!({"outcome": "ok-rules"}),
+            }
         }
         "compute_signature" => match helpers::compute_signature(&s(&a, "key"), &hex::decode(s(&a, "input")).unwrap_or_default()) {
             Ok(x) => json!({ "sig": x }),
